@@ -1005,7 +1005,7 @@ def disc_cases(ctx, catalog):
               operation (14) - followed, as always, by the probes execute(new input), linearize(v1), i.e. depth 3-4 in effect;
               + SimpleCache x every grammar type: 7 grammar-edit words [use, edit, round-trip] (edit = restrict_to / rename /
               add a name / change a default / make optional, on a grammar that has already validated data);
-              + full caches: the cache-cursor words [E1, E2, L1, RT], [E1, E2, E1, RT] (last accessed entry != newest entry)
+              + full caches: the cache-cursor word [E1, E2, L1, RT] (last accessed entry != newest entry; thorough adds [E1, E2, E1, RT])
     thorough  SimpleCache x every grammar type: every word of length <= 3 with one or two round-trips (108), plus, for the
               default grammar, every word with one round-trip and exactly 3 other operations (216, depth 4);
               default grammar x MemoryFull: the 108 words; default grammar x {HDF5, no cache}: the 68 words;
@@ -1016,7 +1016,8 @@ def disc_cases(ctx, catalog):
     scales = list(ctx.pick(SCALESETS))
     h_one, h_short = histories(2, 1), histories(1, 1)
     # cache-cursor words: the last *accessed* entry of a full cache differs from the newest one at the round-trip
-    cursor = lambda rts: [[*w, rt] for rt in rts for w in (["E1", "E2", "L1"], ["E1", "E2", "E1"])]  # noqa: E731
+    # (only a *write* moves the cursor: linearize at an older input stores its Jacobian there; a mere hit does not)
+    cursor = lambda rts: [[*w, rt] for rt in rts for w in ((["E1", "E2", "L1"], ["E1", "E2", "E1"]) if ctx.thorough else (["E1", "E2", "L1"],))]  # noqa: E731
     # grammar-edit words: a grammar that has been used, then edited, then serialized (hidden schema / validator caches)
     if ctx.thorough:
         h_main = histories(2, 2, max_len=3)
